@@ -1285,6 +1285,9 @@ class Interp:
                 b = num_to_sym(b) if isinstance(b, ExtRef) else b
             except TypeError:
                 pass
+        if isinstance(op, ast.Mult) and ((isinstance(a, (str, list, tuple)) and _is_sym(b) and b.is_Integer) or
+                                         (isinstance(b, (str, list, tuple)) and _is_sym(a) and a.is_Integer)):
+            return a * int(b) if isinstance(a, (str, list, tuple)) else b * int(a)      # sequence repetition
         if (_is_sym(a) or _is_sym(b)) and type(a).__name__ != "Vec" and type(b).__name__ != "Vec":
             try:
                 x, y = num_to_sym(a), num_to_sym(b)
@@ -1663,6 +1666,8 @@ class Interp:
         if isinstance(v, str):
             return list(v)
         if isinstance(v, Term):
+            if ("Term", "__iter__") in self.libmeth:
+                return self.libmeth[("Term", "__iter__")](self, v, [], {}, node)
             return [Term("elem", [v])]      # one representative element stands for every element
         kind = self.kind_of(v)
         if (kind, "__iter__") in self.libmeth:
